@@ -13,7 +13,8 @@ Accepted == PrintT(<<"hiwater", TLCGet(7), Len(Trace)>>) /\ TLCGet(7) = Len(Trac
 Last == Trace[hi]
 Is(e) == hi >= 1 /\ Last.ev = e
 I_C03data == Is("data") => DataOK(Last)
-I_C03interest == Is("interest") => InterestOK(Last)
+\* (a signature asked for without parameters may be refused by the API: nothing was built)
+I_C03interest == Is("interest") => (InterestOK(Last) \/ (Last.s.params < 0 /\ Last.s.signer # "none" /\ Last.err # ""))
 I_C12data == (Is("data") /\ Last.err = "" /\ Last.s.sigL >= 0) => SigOK(Last, DataCovered(Last.s), << >>)
 I_C12interest == (Is("interest") /\ Last.err = "") =>
                     /\ (Last.s.sigL >= 0 => SigOK(Last, InterestCovered(Last.s), InterestDigested(Last.s)))
@@ -21,7 +22,7 @@ I_C12interest == (Is("interest") /\ Last.err = "") =>
 \* a shape with a signer must come out signed
 I_C12signed == ((Is("data") \/ Is("interest")) /\ Last.err = "" /\ Last.s.signer # "none") => Last.s.sigL >= 0
 \* every shipped signer signs every shape (a signer that fails leaves nothing for a validator to accept)
-I_C12built == ((Is("data") \/ Is("interest")) /\ Last.s.signer # "none") => Last.err = ""
+I_C12built == ((Is("data") \/ Is("interest")) /\ Last.s.signer # "none" /\ ~(Is("interest") /\ Last.s.params < 0)) => Last.err = ""
 I_C12tamper == Is("tamper") => TamperOK(Last)
 FailedC03 == (IF I_C03data THEN {} ELSE {"I_C03data"}) \cup (IF I_C03interest THEN {} ELSE {"I_C03interest"})
 FailedC12 == (IF I_C12data THEN {} ELSE {"I_C12data"}) \cup (IF I_C12interest THEN {} ELSE {"I_C12interest"})
